@@ -4,4 +4,6 @@ go 1.26.0
 
 require golang.org/x/crypto v0.0.0
 
+require golang.org/x/sys v0.47.0 // indirect
+
 replace golang.org/x/crypto => /repo
